@@ -96,7 +96,7 @@ type OpSpec struct {
 }
 
 type IcptSpec struct {
-	Kind  int `json:"kind"`  // stmt: 0 pass 1 observe 2 wrap 3 implicit-function root; expr: 0 pass 1 observe 2 wrap 3 re-enter; tok: 0 pass 1 observe
+	Kind  int `json:"kind"`  // stmt: 0 pass 1 observe 2 wrap 3 implicit-function root; expr: 0 pass 1 observe 2 wrap 3 re-enter; tok: 0 pass 1 observe 2 decorate (appends a comment)
 	Every int `json:"every"` // act on every n-th invocation (per parser / lexer), n>=1
 }
 
@@ -219,6 +219,11 @@ func GenJob(seed uint64) *JobSpec {
 			return out
 		}
 		j.TokIcpts = drawIcpts(1)
+		if len(j.TokIcpts) > 0 && ch.Bool(1, 6) {
+			// a plugin that decorates tokens: it appends a comment of its own to the leading comments of every n-th
+			// token that follows a blank line or comment (the token's slice is the token's: nobody else sees it)
+			j.TokIcpts[ch.Choose(len(j.TokIcpts))].Kind = 2
+		}
 		j.StmtIcpts = drawIcpts(2)
 		if len(j.StmtIcpts) > 0 && ch.Bool(1, 8) {
 			// a plugin that treats the script as the body of an implicit function: at the first step of a parse it
@@ -1042,6 +1047,9 @@ func (j *jobRun) addTokIcpt(i int, ic IcptSpec) {
 		}
 		if act {
 			env.Yield(sTokPost)
+		}
+		if ic.Kind == 2 && act && len(t.LeadingComments) > 0 {
+			t.LeadingComments = append(t.LeadingComments, fmt.Sprintf("// job %x", j.spec.Seed))
 		}
 		return t
 	})
